@@ -32,6 +32,8 @@ def parseAnswer (l : Line) : FlowObs.Answer :=
     minted := if ok && has l "o.rt" then some (rtOf "o.rt") else if !ok && has l "o.minted" then some (rtOf "o.minted") else none,
     handed := if has l "o.handed" then some (str l "o.handed") else none,
     err := str l "o.err",
-    created := (list l "journal").any (fun j => j.startsWith "CreateAccess") }
+    -- deep4-C07: `o.created` = the storage holds a token now that it did not hold before the request (a creating call that
+    -- FAILED is journalled too); lines without the key: the journal
+    created := if has l "o.created" then bool l "o.created" else (list l "journal").any (fun j => j.startsWith "CreateAccess") }
 
 end Drv.Wire
